@@ -21,7 +21,7 @@ ASSUMPTIONS = [
     "real-valued parameters are covered on the finite catalogue + VERIF_SEED-indexed generic reals (cond<=1e3) only",
     "sizes bounded: D<=4, R<=3",
 ]
-BOUNDS = {"quick": dict(D=[2, 3, 4], R=[1, 2, 4]), "thorough": dict(D=[2, 3, 4, 5], R=[1, 2, 3, 4])}
+BOUNDS = {"quick": dict(D=[2, 3, 4], R=[1, 2, 4]), "thorough": dict(D=[2, 3, 4, 5, 6], R=[1, 2, 3, 4, 5])}
 BUDGET = {"quick": 600, "thorough": 3600}
 
 
@@ -40,7 +40,7 @@ def run_shard(shard, ctx):
     tier, seed = shard["tier"], shard["seed"]
     kind, D, R = shard["kind"], shard["D"], shard["R"]
     diag = "Diag" in kind
-    vis = [0, 100, objs.HARD] if tier == "quick" else [0, 1, 100, 101, objs.HARD]
+    vis = [0, 100, objs.HARD] if tier == "quick" else [0, 1, 100, 101, 102, 103, 104, 105, objs.HARD]
     lists = al.all_index_lists(D, proper=True)
     if D >= 6:
         lists = [l for l in lists if len(l) <= 2] + [l for l in lists if len(l) > 2][::7]
